@@ -193,7 +193,8 @@ func ruleHeaderRefusals(c *core.Ctx) {
 		}
 		for _, r := range succ {
 			if !core.Guarded(hr, r, m) {
-				return false
+				// the validation steps may be the rows of a constant table of functions
+				return guardedThroughTable(c, hr, succ, m)
 			}
 		}
 		return true
@@ -242,7 +243,34 @@ func ruleHeaderRefusals(c *core.Ctx) {
 		}
 		payloadRead = sr
 	}
-	isHdrOK := func(v ssa.Value) bool { cr, _ := core.CallResult(v); return cr != nil && ssa.CallInstruction(cr) == hdrCall }
+	// the verdict of Header.Read, or the error of a private helper of the unit
+	// that returns nil only where Header.Read did
+	var isHdrOKDepth func(v ssa.Value, depth int) bool
+	isHdrOKDepth = func(v ssa.Value, depth int) bool {
+		cr, _ := core.CallResult(v)
+		if cr == nil {
+			return false
+		}
+		if ssa.CallInstruction(cr) == hdrCall {
+			return true
+		}
+		h := cr.Call.StaticCallee()
+		if h == nil || depth > 2 || !isUnitCall(unit, cr) || !core.IsErrorType(v.Type()) {
+			return false
+		}
+		n := 0
+		for _, ret := range core.Returns(h) {
+			if !successReturn(ret) {
+				continue
+			}
+			n++
+			if !core.Guarded(h, ret, core.Eq(func(w ssa.Value) bool { return isHdrOKDepth(w, depth+1) }, core.IsNilConst)) {
+				return false
+			}
+		}
+		return n > 0
+	}
+	isHdrOK := func(v ssa.Value) bool { return isHdrOKDepth(v, 0) }
 	bad := ""
 	if payloadRead == nil {
 		bad = "no payload read found"
@@ -367,8 +395,8 @@ func ruleMessageReads(c *core.Ctx) {
 			if successReturn(ret) && !core.MustPassBefore(fn, ret, isStore) {
 				return false
 			}
-			// `return m.helper(r)`: the result of a unit helper
-			if !successReturn(ret) && !errorReturnConst(ret) {
+			// `return m.helper(r)`: the result of a unit helper (not `return err` under err != nil)
+			if !successReturn(ret) && !errorReturnConst(ret) && !returnsTestedError(fn, ret) {
 				if cr, _ := core.CallResult(core.RetVal(ret, len(ret.Results)-1)); cr != nil && isUnitCall(unit, cr) {
 					if !assigns(cr.Call.StaticCallee(), depth+1) {
 						return false
@@ -403,4 +431,15 @@ func ruleNewMessage(c *core.Ctx) {
 		}
 	}
 	c.Check(ok, rule, "bus/net.NewMessage", fn.Pos(), "Header.Size = len(payload)", "NewMessage does not set Header.Size to the payload length: Message.Write refuses the message or the reader desynchronises")
+}
+
+// returnsTestedError: the error returned was tested to be non-nil on every way
+// to the return (if err := f(); err != nil { return err }).
+func returnsTestedError(fn *ssa.Function, ret *ssa.Return) bool {
+	if len(ret.Results) == 0 {
+		return false
+	}
+	ev := core.Canon(core.RetVal(ret, len(ret.Results)-1))
+	isE := func(v ssa.Value) bool { return core.Canon(v) == ev }
+	return core.Guarded(fn, ret, core.Ne(isE, core.IsNilConst))
 }
